@@ -21,5 +21,12 @@ git -C /repo worktree add --detach "$D/repo" HEAD >/dev/null 2>&1
 if [ -n "$P" ]; then git -C "$D/repo" apply "$P"; fi
 mkdir -p "$D/verif"
 rsync -a --exclude .git --exclude build --exclude replays --exclude '.lock.*' --exclude '*.tmp.*' /verif/ "$D/verif/" || [ $? -eq 24 ]   # 24 = files vanished while copying (other builds running): harmless
+if [ -n "$SANDBOX_HEAD" ]; then
+  # committed state of /verif only (build output kept for speed): tracked files reset to HEAD by content, untracked sources dropped,
+  # so that uncommitted work in progress of other agents cannot leak into the run
+  mkdir -p "$D/verif.head" && git -C /verif archive HEAD | tar -x -C "$D/verif.head"
+  rsync -rlpgoD -c "$D/verif.head/" "$D/verif/" && rm -rf "$D/verif.head"   # no -t: a file that differs gets mtime = now, so make rebuilds its .vo
+  git -C /verif ls-files --others --exclude-standard | while read f; do rm -f "$D/verif/$f"; done
+fi
 sed -i "s#=> /repo#=> $D/repo#" "$D/verif/harness/go.mod"
 echo "VERIF_REPO=$D/repo $D/verif/check <ID> --tier quick"
